@@ -69,6 +69,7 @@ type interp struct {
 	pkgInit   map[*ssa.Package]int // 0 = no, 1 = running, 2 = done
 	undo      []undoEntry
 	logging   bool
+	ar        arena // path-local cells (stores into them are not logged)
 	identCache map[typePair]bool
 	implCache  map[typePair]bool
 	methodCache map[methodKey]*ssa.Function
@@ -451,16 +452,10 @@ func (in *interp) visitInstr(fr *frame, instr ssa.Instruction) bool {
 		fr.set(instr, in.makeChan(int(n), instr.Type().Underlying().(*types.Chan).Elem()))
 
 	case *ssa.Alloc:
-		if instr.Heap {
-			addr := new(value)
-			*addr = zero(mustDeref(instr.Type()))
-			fr.set(instr, addr)
-		} else {
-			// local: fresh cell per execution of the Alloc
-			addr := new(value)
-			*addr = zero(mustDeref(instr.Type()))
-			fr.set(instr, addr)
-		}
+		// fresh cell per execution of the Alloc (heap or local alike)
+		addr := in.newCell()
+		*addr = in.zeroV(mustDeref(instr.Type()))
+		fr.set(instr, addr)
 
 	case *ssa.MakeSlice:
 		tElt := instr.Type().Underlying().(*types.Slice).Elem()
@@ -472,12 +467,12 @@ func (in *interp) visitInstr(fr *frame, instr ssa.Instruction) bool {
 		if c > in.cfg.maxAlloc {
 			panic(in.unsupported(fmt.Sprintf("makeslice of %d elements exceeds engine limit", c)))
 		}
-		s := make([]value, c)
+		s := in.newVals(c)
 		z := zero(tElt)
 		switch z.(type) {
 		case structure, array:
 			for i := range s {
-				s[i] = zero(tElt)
+				s[i] = in.zeroV(tElt)
 			}
 		default:
 			for i := range s {
@@ -1099,7 +1094,7 @@ func (in *interp) appendVals(dst, src []value) []value {
 	}
 	n := len(dst) + len(src)
 	c := max(2*cap(dst), n, 4)
-	res := make([]value, n, c)
+	res := in.newVals(c)[:n]
 	copy(res, dst)
 	for i := range src {
 		res[len(dst)+i] = copyVal(src[i])
